@@ -23,15 +23,7 @@ def optBoolOf (j : Json) : Option Bool := match j with | .null => none | v => v.
 def convOf (_j : Json) : R Conv := pure Oracle.Conv.modelConv
 
 /-- "durfmt": {"<ns>": "1m0s", …}: recorded time.Duration.String -/
-def fmtOf (j : Json) : Int → String :=
-  let l : List (String × Json) := match (fldOpt j "durfmt") with
-    | some o => match o.getObj? with
-      | .ok m => m.toList
-      | .error _ => []
-    | none => []
-  fun d => match l.lookup (toString d) with
-    | some v => (Json.getStr? v).toOption.getD ""
-    | none => ""
+def fmtOf (_j : Json) : Int → String := MageModel.Gen.Strconv.durString
 
 /-- the probe target `Fail(kind, a, b)` of the C05 project: its outcome as a function of its arguments -/
 def nz (l : List Int) : List Int := l.filter (· ≠ 0)
